@@ -75,7 +75,10 @@ def op_strategy(depth=2):
         st.fixed_dictionaries({"op": st.just("helix"), "cx": nzo, "cy": off, "tx": nzo, "ty": off,
                                "turns": st.integers(1, 3), "dz": dz, "res": res}),
         st.fixed_dictionaries({"op": st.just("thread"), "dx": nzo, "dy": off, "dz": dy(-8, 8),
-                               "pitch": st.sampled_from([0.5, 1.0, 2.0, 4.0]), "res": res}),
+                               # not "nice" for the same reason as the resolutions: with |dz|/pitch an exact
+        # integer the turn count int(|dz|/pitch) sits on a boundary that the ~1e-15
+        # noise of a position left by a traced path decides
+        "pitch": st.sampled_from([0.5009765625, 1.001953125, 2.00390625, 4.0078125]), "res": res}),
         st.fixed_dictionaries({"op": st.just("spiral"), "dx": nzo, "dy": off,
                                "turns": st.integers(1, 3), "dz": dz, "res": res}),
         # user-supplied parametric curve in absolute coordinates that does NOT
